@@ -77,3 +77,48 @@ def path_to(graph, target):
 
 def n_edges(graph):
     return sum(len(e) for e in graph["edges"])
+
+
+def explore_paths(fresh, *, actions, apply, project, max_depth, max_nodes=200000):
+    """Like explore(), but without cloning: the object of a node is rebuilt by re-executing the node's
+    event path on a fresh object (needed when the property is about aliasing, which a deep copy would
+    hide).  `apply` returns the observed result dict; results are recorded on the edges."""
+    o0 = fresh()
+    p0 = project(o0)
+    index = {json.dumps(p0, sort_keys=True): 1}
+    nodes, edges, paths, depth = [p0], [[]], {1: []}, {1: 0}
+    q = deque([1])
+    truncated = False
+    cut = set()
+    while q:
+        n = q.popleft()
+        path = paths.pop(n)
+        if depth[n] >= max_depth:
+            cut.add(n)
+            continue
+        if len(nodes) >= max_nodes:
+            truncated = True
+            cut.add(n)
+            continue
+        for act in actions(nodes[n - 1]):
+            o = fresh()
+            for e in path:
+                apply(o, e)
+            res = apply(o, act) or {}
+            p2 = project(o)
+            k2 = json.dumps(p2, sort_keys=True)
+            m = index.get(k2)
+            if m is None:
+                m = len(nodes) + 1
+                index[k2] = m
+                nodes.append(p2)
+                edges.append([])
+                paths[m] = path + [act]
+                depth[m] = depth[n] + 1
+                q.append(m)
+            e = dict(act)
+            e.update(res)
+            e["dst"] = m
+            edges[n - 1].append(e)
+    return {"nodes": nodes, "edges": edges, "truncated": truncated,
+            "cut": [i + 1 in cut for i in range(len(nodes))]}
